@@ -22,8 +22,7 @@ Proof.
     pose proof (i2_tl _ H t0 x0); pose proof (i2_tl _ H a x0); pose proof (i2_xp _ H x0);
     pose proof (i2_slp1 _ H x0); gfin.
   all: tlfacts; try (intros ->); gsolve.
-  Show.
-Admitted.
+Qed.
 
 Lemma i2_u_step s l s' : inv2 s -> step s l = Some s' ->
   forall t m x, uhead (pc (th s' t)) m = Some x -> hd_error (wqm (mx s' m)) = Some x.
@@ -34,5 +33,4 @@ Proof.
   all: try (apply hd_app; gsolve).
   all: try (apply hd_rm; gsolve).
   all: tlfacts; try (intros ->); gsolve.
-  Show.
-Admitted.
+Qed.
